@@ -395,7 +395,7 @@ type C12Case struct {
 	Queries []DrvQuery `json:"queries"`
 }
 
-var dsnOptMenu = []string{"", "preload=true", "lrucache=true&lrucachesize=0", "lrucache=true&lrucachesize=300", "lrucache=true&lrucachesize=10000000",
+var dsnOptMenu = []string{"", "preload=true", "lrucache=true&lrucachesize=0", "lrucache=true&lrucachesize=300", "lrucache=true&lrucachesize=10000000", "lrucache=true&lrucachesize=18446744073709551615", "lrucache=true&lrucachesize=9223372036854775808",
 	"preload=true&lrucache=true&lrucachesize=2000", "lrucache=true&lrucachesize=abc", "preload=false&lrucache=false"}
 
 func init() {
